@@ -319,6 +319,49 @@ pub fn check(args: &Args, prop: Prop) -> i32 {
         new_violations += 1;
         exit = 1;
     }
+    // the systematic part: expression form x binding position x changed subset x marking style
+    let grid_n = if matches!(prop, Prop::C06 | Prop::C07) { crate::grid::count() } else { 0 };
+    let gouts = parallel_map(grid_n, args.workers, move |i| run_explicit(prop_name(prop), &crate::grid::world(seed, i), false));
+    let mut grid_reported: Vec<String> = vec![];
+    let mut grid_violating = 0u64;
+    for (i, g) in gouts.iter().enumerate() {
+        stats.merge(&g.stats);
+        stats.add("grid.worlds", 1);
+        if g.executable {
+            stats.add("grid.worlds_executed", 1);
+        }
+        if let Outcome::Violated(v) = &g.outcome {
+            grid_violating += 1;
+            let mut rv = crate::grid::world(seed, i as u64);
+            let sig = format!("{}|{}|{}", v.class, rv["grid"]["position"], rv["grid"]["expression"]);
+            if grid_reported.len() as u64 >= std::env::var("GE_MAX_REPORT").ok().and_then(|s| s.parse().ok()).unwrap_or(3) || grid_reported.contains(&sig) {
+                continue;
+            }
+            grid_reported.push(sig);
+            rv["property"] = json!(pname);
+            rv["verif_seed"] = json!(seed.to_string());
+            rv["run_index"] = json!(format!("grid-{}", i));
+            rv["class"] = json!(v.class);
+            rv["detail"] = json!(v.detail);
+            let path = write_replay(pname, &format!("seed{}-grid{}", seed, i), &rv);
+            let confirmed = std::process::Command::new(std::env::current_exe().unwrap())
+                .args(["replay", path.to_str().unwrap(), "--quiet"])
+                .stdout(std::process::Stdio::null())
+                .status()
+                .map(|s| s.code() == Some(1))
+                .unwrap_or(false);
+            if !confirmed {
+                harness_error(&format!("grid violation of class {} did not reproduce from its replay file {} in a fresh process", v.class, path.display()));
+            }
+            println!("{} violation class={} grid world {} ({})
+{}", pname, v.class, i, rv["grid"], v.detail);
+            println!("  [index] {}
+  schedule: {}", rv["sources"][0][1], rv["schedule"]);
+            println!("VIOLATION property={} replay={}", pname, path.display());
+            new_violations += 1;
+            exit = 1;
+        }
+    }
     // every listed finding is also replayed: still failing => KNOWN-FINDING line, else INFO
     for k in known.iter().filter(|k| k.kind == "finding" && k.property == pname) {
         if let Some(rp) = &k.replay {
@@ -372,14 +415,16 @@ pub fn check(args: &Args, prop: Prop) -> i32 {
             "flushes_that_changed_the_tree": changed,
             "violating_runs_before_dedup": violations.len(),
             "run_phase_wall_s": run_phase_s,
+            "grid": {"worlds": grid_n, "violating": grid_violating, "what": "systematic sweep: every expression form of a catalogue in every binding position of a catalogue; for each such small template every non-empty subset of the expression's dependency leaves is the changed set of one update (order drawn from the seed), under five marking styles: exact tree, coarsened tree, `true`, the runtime's own tree for a batch, one change per flush (fast path where advertised)"},
             "distinct_measure": "distinct (template sources, op-kind sequence, updateMode) triples; event-log hashes are compared across processes by `./check selftest determinism`",
         }),
     });
     println!(
-        "{} {}: runs={} executable={:.1}% flushes={} changed_tree={} distinct_nontrivial={} violating_runs={} new_violations={} run_phase={:.1}s wall={:.1}s",
+        "{} {}: runs={} (+{} grid worlds) executable={:.1}% flushes={} changed_tree={} distinct_nontrivial={} violating_runs={} new_violations={} run_phase={:.1}s wall={:.1}s",
         pname,
         args.tier,
         n,
+        grid_n,
         exec_rate * 100.0,
         flushes,
         changed,
